@@ -196,7 +196,12 @@ func VS_C01_reentrant() {
 	vrtThread("sender0", func() { mb.Enqueue(g.tokens[0]); g.enq[0] = 1 })
 	vrtThread("sender1", func() { mb.Enqueue(g.tokens[1]); g.enq[1] = 1 })
 	vhRegisterCommon(g, mb, 3)
-	vrtSafety("action-in-range", func() bool { return true })
+	// a handler that pauses its own mailbox (what the actor layer does on a
+	// failure or a pause command) is the last one to see a user message until
+	// somebody resumes; nobody does in this scenario
+	vrtSafety("no-user-message-handled-after-the-handler-paused", func() bool {
+		return !(g.action == 2 && g.pos[0] != 0 && !g.tokens[1].sys && g.pos[1] > g.pos[0])
+	})
 }
 
 // VS_C02_same_sender_order: one sender enqueues two user messages in program
